@@ -33,4 +33,33 @@ def build_blocks(ctx, prelude, blocks, tag, only=None, std="c++14", max_attempts
         for j, msg in bad.items():
             dropped[blocks[alive[j]][0]] = msg
         alive = [i for j, i in enumerate(alive) if j not in bad]
-    raise AnalysisBroken("IR build did not converge for %s" % tag)
+    # an error inside a SHARED instantiation is reported once, for the first block that needs it, so
+    # the loop above peels one block per round: judge every remaining block on its own, then rebuild
+    import os
+    wd = ctx.sub("SOLO_" + tag)
+
+    def solo(i):
+        pth = os.path.join(wd, "s%d.cc" % i)
+        with open(pth, "w") as f:
+            f.write(prelude.rstrip("\n") + "\n" + blocks[i][1].rstrip("\n") + "\n")
+        rc, so, se = cxx.run(["clang++", "-std=" + std, "-fsyntax-only", "-w", "-I" + ir.AU_INC, "-I" + ir.VERIF_INC, pth])
+        if rc == 0:
+            return i, None
+        d = cxx.parse_clang(se)
+        return i, ("%s: %s" % (d[0].where(), d[0].msg[:200])) if d else se[-200:]
+    keep = []
+    for i, err in cxx.pmap(solo, alive):
+        if err is None:
+            keep.append(i)
+        else:
+            dropped[blocks[i][0]] = err
+    keep.sort()
+    if not keep:
+        return None, [], dropped
+    lines = prelude.rstrip("\n").split("\n")
+    for i in keep:
+        lines.extend(blocks[i][1].rstrip("\n").split("\n"))
+    path, se = ir.build_ir(ctx, "\n".join(lines) + "\n", "%s_final" % tag, std=std)
+    if path is None:
+        raise AnalysisBroken("IR build did not converge for %s: %s" % (tag, se[-400:]))
+    return ir.parse_module(path, only=only), [blocks[i][0] for i in keep], dropped
